@@ -256,12 +256,51 @@ def body_big_mesh(ctx):
         ctx.check(item is not None and int(item.linear_index) == f, 'the returned cell contains or touches the point (no nearest-cell fallback)')
 
 
+def body_larger(ctx, kind):
+    """Grids with more than 4,096 / 65,536 cells and meshes with faces of up to twelve nodes: a point inside cell n is
+    found in cell n (reference geometry checked first)."""
+    from emsarray.conventions.ugrid import UGrid
+    v = int(ctx.int('variant', 0, 1))
+    if kind == 'cf1d':
+        ny, nx = (65 + v, 64) if v == 0 else (257, 258)
+        ds = builders.cf1d(ny, nx, lat=numpy.linspace(-40.0, -8.0, ny), lon=numpy.linspace(110.0, 160.0, nx))
+        cv = ds.ems
+    elif kind == 'shoc_standard':
+        ds = builders.shoc_standard(66 + v, 63)
+        cv = ds.ems
+    else:
+        ds = builders.ugrid(kind, fill='none' if kind == 'fan9' else ('nan', 'attr')[v], start_index=v)
+        cv = UGrid(ds)
+    ref = geomref.check(ctx, ds, cv)
+    N = len(ref)
+    picks = sorted({0, 1, N // 3, N // 2, N - 2, N - 1} | {n for n in (4095, 4096, 4097, 10000, 16384, 16385, 65535, 65536, 65537) if n < N}) if N > 20 else range(N)
+    for n in picks:
+        if ref[n] is None:
+            continue
+        pt = ref[n].representative_point()
+        item = cv.get_index_for_point(pt)
+        ctx.check(item is not None and int(item.linear_index) == n and item.polygon is cv.polygons[n], 'the returned cell contains or touches the point (no nearest-cell fallback)')
+    if N <= 20:
+        # shared edges: the lowest-numbered cell that touches the point
+        import shapely
+        for a in range(N):
+            for b in range(a + 1, N):
+                if ref[a] is None or ref[b] is None:
+                    continue
+                shared = ref[a].intersection(ref[b])
+                if shared.length > 0:
+                    item = cv.get_index_for_point(shared.interpolate(0.5, normalized=True))
+                    ctx.check(item is not None and int(item.linear_index) == a, 'no intersecting cell has a lower linear index')
+
+
 def PATCHES():
     return env.patched(*geo.point_predicate_patches())
 
 
 def cases(tier):
     yield Case('ugrid:big:int16-encoding', body_big_mesh, dict(), max_paths=4)
+    for kind in ('cf1d', 'shoc_standard', 'nonagon', 'fan9', 'poly34567'):
+        yield Case(f'larger:{kind}', body_larger, dict(kind=kind), max_paths=4)
     q = tier == 'quick'
     cfgs = [('cf1d', (2, 3), (), False), ('cf2d', (2, 2), (), True), ('cf2d', (2, 3), ((0, 1),), False),
             ('shoc_simple', (2, 2), ((1, 1),), True), ('shoc_standard', (2, 2), (), True),
